@@ -18,14 +18,17 @@ deriving Repr, DecidableEq
 
 def isVerb (c : UInt8) : Bool := c == DO || c == DONT || c == WILL || c == WONT
 
-/-- the reply written for `IAC cmd opt` (the if/elif chain of `_handle_control_chars_response`);
-    `none` when no branch applies -/
-def reply (cmd opt : UInt8) : Option Bytes :=
-  if cmd == DO && opt == SUPPRESS_GO_AHEAD then some [IAC, WILL, opt]
-  else if cmd == DO || cmd == DONT then some [IAC, WONT, opt]
-  else if cmd == WILL then some [IAC, DO, opt]
-  else if cmd == WONT then some [IAC, DONT, opt]
-  else none
+/-- first row of a reply table that applies to `IAC cmd opt` -/
+def replyOf (tbl : List (UInt8 × Option UInt8 × UInt8)) (cmd opt : UInt8) : Option Bytes :=
+  match tbl.find? (fun r => r.1 == cmd && (match r.2.1 with | none => true | some o => o == opt)) with
+  | some r => some [IAC, r.2.2, opt]
+  | none => none
+
+/-- the reply written for `IAC cmd opt`: the if/elif chain of `_handle_control_chars_response` as the
+    translator read it from the source of that transport (`count` identifies the transport: the sync
+    one is the one that counts completed commands); `none` when no branch applies -/
+def reply (count : Bool) (cmd opt : UInt8) : Option Bytes :=
+  replyOf (if count then syncReplyTable else asyncReplyTable) cmd opt
 
 /-- `_handle_control_chars_response(control_buf, c)`; `count` says whether this transport
     increments the sent counter (sync: yes, asyncio: no). -/
@@ -35,7 +38,7 @@ def stepByte (count : Bool) (s : St) (c : UInt8) : St :=
   | [i] => if isVerb c then { s with ctrl := [i, c] } else s
   | [_, cmd] =>
     let s := { s with ctrl := [] }
-    let s := match reply cmd c with
+    let s := match reply count cmd c with
       | some r => { s with writes := s.writes ++ [r] }
       | none => s
     if count then { s with counter := s.counter + 1 } else s
@@ -72,7 +75,18 @@ def run (count : Bool) (limit : Nat) (tape : List Bytes) : Bytes × List Bytes :
   let r := tape.foldl (pump count limit) ({}, [])
   (r.2, r.1.writes)
 
-def runSync (tape : List Bytes) := run true syncLimit tape
-def runAsync (tape : List Bytes) := run false asyncLimit tape
+/-- the successive results of `read()` for a client that keeps calling it: `read()` loops
+    (`while not cooked and not eof`) over recv results until something is cooked or EOF was seen, returns
+    the cooked bytes without NULs and clears them; after EOF the next `read()` raises, so the list ends -/
+def reads (count : Bool) (limit : Nat) : St → List Bytes → List Bytes
+  | _, [] => []
+  | s, c :: cs =>
+    let s' := recvStep count limit s c
+    if s'.cooked.isEmpty && !s'.eof then reads count limit s' cs
+    else stripNul s'.cooked :: (if s'.eof then [] else reads count limit { s' with cooked := [] } cs)
+
+/-- the two transports, with the counting behaviour the translator read from the source -/
+def runSync (tape : List Bytes) := run syncCounts syncLimit tape
+def runAsync (tape : List Bytes) := run asyncCounts asyncLimit tape
 
 end Scrapli.Telnet
